@@ -9,7 +9,7 @@ let show_out (o : rt_out) : string option =
   match o with
   | RoTx (t, _, s, b) -> Some (Printf.sprintf "tx:%s:%s:%s" (zs t) (zs s) (hex_of_bytes b))
   | RoSent m -> Some ("s:" ^ zs m)
-  | RoNack (t, _, s, r, m) -> Some (Printf.sprintf "nk:%s:%s:%s:%s:1" (zs t) (zs s) (zs r) (zs m))
+  | RoNack (t, _, s, r, m, _, _) -> Some (Printf.sprintf "nk:%s:%s:%s:%s:1" (zs t) (zs s) (zs r) (zs m))
   | RoNackNoPdu (t, s, r, m) -> Some (Printf.sprintf "nk:%s:%s:%s:%s:0" (zs t) (zs s) (zs r) (zs m))
   | RoAcked (_, _) -> None
   | RoWait (t, w, hd) -> Some (Printf.sprintf "w:%s:%s:%s" (zs t) (zs w) (zs hd))
